@@ -126,6 +126,14 @@ pub trait Monitor {
     fn shrink(&mut self, _case: &Case) -> Vec<Case> {
         vec![]
     }
+    /// lazy shrinking (optional, for monitors with many / expensive candidates): number of candidates of `case` ...
+    fn shrink_count(&mut self, _case: &Case) -> Option<usize> {
+        None
+    }
+    /// ... and the i-th one (None = that edit is a no-op)
+    fn shrink_candidate(&mut self, _case: &Case, _i: usize) -> Option<Case> {
+        None
+    }
     /// fine-grained signature of a (shrunk) failing case: used for de-duplication and for matching
     /// known findings; computed after shrinking, so it may look at the minimal witness
     fn classify(&mut self, _case: &Case, signature: &str) -> String {
@@ -254,34 +262,65 @@ pub struct WorkArgs {
     pub verif_dir: PathBuf,
 }
 
-fn shrink_case(mon: &mut dyn Monitor, case: &Case, signature: &str, time_limit: Duration) -> (Case, String, u32) {
+pub fn shrink_case(mon: &mut dyn Monitor, case: &Case, signature: &str, time_limit: Duration) -> (Case, String, u32) {
     let t0 = Instant::now();
     let mut best = case.clone();
     let mut best_detail = String::new();
     let mut steps = 0u32;
     let mut scratch = Cov::new();
-    'outer: loop {
+    // candidates are tried in order; after a success the scan continues from the same position in the new
+    // candidate list (earlier positions were just tried on an almost identical case), wrapping around once
+    let mut pos = 0usize;
+    let mut since_success = 0usize;
+    loop {
         if t0.elapsed() > time_limit {
             break;
         }
-        let cands = match guarded(|| mon.shrink(&best)) {
-            Ok(c) => c,
-            Err(_) => break,
-        };
-        for cand in cands {
-            if t0.elapsed() > time_limit {
-                break 'outer;
+        let lazy_n = guarded(|| mon.shrink_count(&best)).ok().flatten();
+        let cands: Vec<Case> = if lazy_n.is_some() {
+            vec![]
+        } else {
+            match guarded(|| mon.shrink(&best)) {
+                Ok(c) => c,
+                Err(_) => break,
             }
+        };
+        let n = lazy_n.unwrap_or(cands.len());
+        if n == 0 {
+            break;
+        }
+        let mut progressed = false;
+        let mut tried = 0usize;
+        while tried < n {
+            if t0.elapsed() > time_limit {
+                break;
+            }
+            let idx = (pos + tried) % n;
+            tried += 1;
+            since_success += 1;
+            let cand: Case = if lazy_n.is_some() {
+                match guarded(|| mon.shrink_candidate(&best, idx)) {
+                    Ok(Some(c)) => c,
+                    _ => continue,
+                }
+            } else {
+                cands[idx].clone()
+            };
             if let Verdict::Violated { signature: s, detail, .. } = run_case_guarded(mon, &cand, &mut scratch) {
                 if s == signature {
                     best = cand;
                     best_detail = detail;
                     steps += 1;
-                    continue 'outer;
+                    pos = idx;
+                    since_success = 0;
+                    progressed = true;
+                    break;
                 }
             }
         }
-        break;
+        if !progressed || since_success > 3 * n {
+            break;
+        }
     }
     (best, best_detail, steps)
 }
@@ -395,11 +434,15 @@ pub fn worker_main(mon: &mut dyn Monitor, args: WorkArgs) -> i32 {
             Verdict::Discard(r) => *discards.entry(r).or_insert(0) += 1,
             Verdict::Violated { signature, detail, narrowed } => {
                 violations_found += 1;
-                let seen = sig_counts.entry(signature.clone()).or_insert(0u32);
+                // de-duplicate on the fine signature of the unshrunk case (rules + trigger class), so that different
+                // defects sharing a coarse failure kind all get a witness
+                let base0 = narrowed.clone().unwrap_or_else(|| case.clone());
+                let pre_key = guarded(|| mon.classify(&base0, &signature)).unwrap_or_else(|_| signature.clone());
+                let seen = sig_counts.entry(pre_key).or_insert(0u32);
                 *seen += 1;
-                if *seen > 3 {
+                if *seen > 2 {
                     // enough witnesses of this class from this worker; keep exploring
-                    cov.hit("violation_candidates_not_recorded_(class_already_has_3)");
+                    cov.hit("violation_candidates_not_recorded_(class_already_has_2)");
                     index += args.nshards;
                     continue;
                 }
@@ -408,7 +451,7 @@ pub fn worker_main(mon: &mut dyn Monitor, args: WorkArgs) -> i32 {
                 // no shrinking for failures that already match an open known finding
                 let pre = guarded(|| mon.classify(&base, &signature)).unwrap_or_else(|_| signature.clone());
                 let is_known = known_res.iter().any(|r| r.is_match(&pre));
-                let (shrunk, sdetail, steps) = if is_known { (base.clone(), String::new(), 0) } else { shrink_case(mon, &base, &signature, Duration::from_secs(15)) };
+                let (shrunk, sdetail, steps) = if is_known { (base.clone(), String::new(), 0) } else { shrink_case(mon, &base, &signature, Duration::from_secs(8)) };
                 let fine = guarded(|| mon.classify(&shrunk, &signature)).unwrap_or_else(|_| signature.clone());
                 let rec = json!({
                     "index": index, "signature": fine, "coarse_signature": signature,
@@ -419,8 +462,8 @@ pub fn worker_main(mon: &mut dyn Monitor, args: WorkArgs) -> i32 {
                 if let Ok(mut f) = std::fs::OpenOptions::new().create(true).append(true).open(&viol_path) {
                     let _ = writeln!(f, "{}", serde_json::to_string(&rec).unwrap());
                 }
-                if sig_counts.len() >= 60 {
-                    cov.hit("stopped_after_60_distinct_violation_classes");
+                if sig_counts.len() >= 200 {
+                    cov.hit("stopped_after_200_distinct_violation_classes");
                     break;
                 }
             }
